@@ -288,11 +288,13 @@ def Avx.digest_block (state : W8 UInt32) (block : Bytes) : Option (W8 UInt32) :=
   | some (state, block) => Sse41.digest_block state block
 
 /-- `impl256::digest_block` (mod.rs): `if HAS_AVX { return avx::… }`, then `if HAS_SSE41 { return sse41::… }`,
-    else `reference::digest_block` -/
+    else `reference::digest_block` — the order and gating of the blocks is the extracted table DISPATCH_SHA256 -/
 def digest_block (ft : Features) (state : W8 UInt32) (block : Bytes) : Option (W8 UInt32) :=
-  if ft.avx then Avx.digest_block state block
-  else if ft.sse41 then Sse41.digest_block state block
-  else Impl256.digest_block state block
+  match selectPath ft Extracted.Simd.DISPATCH_SHA256 with
+  | 0 => Impl256.digest_block state block
+  | 1 => Sse41.digest_block state block
+  | 2 => Avx.digest_block state block
+  | _ => none
 
 /-! ## the engine and context of Impl.Sha2 over the dispatched block function
     (`Impl.Sha2.Eng256.Engine.blocks` is the portable instance; Proofs/SimdSha256Ctx.lean) -/
